@@ -34,6 +34,7 @@ import (
 	"github.com/lightninglabs/neutrino"
 	"github.com/lightninglabs/neutrino/headerfs"
 	"github.com/lightninglabs/neutrino/query"
+	"verifharness/tr"
 )
 
 // mineHeaders builds n simnet headers on prev that pass the block manager's header checks (proof of work,
@@ -240,9 +241,16 @@ func reorgCFRound(r *rand.Rand, variant string) {
 
 func wlReorgCFHandler(seed int64, budget int) {
 	r := rand.New(rand.NewSource(seed*131 + 9))
-	// a round costs about 1.5 s in a race build, most of it opening the stores; the child's watchdog is 20 s
+	// a round costs about 1.5 s in a race build, most of it opening the stores; the parent's watchdog for this child
+	// is 20 s times the run's budget (at most 3): no new round is started in the second half of that
+	limit := time.Duration(9*min(tr.EnvInt("VERIF_BUDGET", 1), 3)) * time.Second
+	start := time.Now()
 	variants := []string{"restart-reorg", "checkpoint-mismatch", "sync-then-reorg"}
 	for i := 0; i < 1+3*budget; i++ {
+		if i >= 3 && time.Since(start) > limit {
+			fmt.Fprintf(os.Stderr, "reorg-cfhandler: %d rounds in %v, stopping early\n", i, time.Since(start))
+			break
+		}
 		reorgCFRound(r, variants[i%len(variants)])
 	}
 }
